@@ -522,3 +522,34 @@ func Test44RangerBehindInterface(t *testing.T) {
 	v.Set("xs", []interface{}{&w44ranger{items: []string{"a"}}, w44countdown{1, 5}, w44countdown{0, 0}})
 	wantOut(t, one(`{{range xs}}{{range v := .}}<{{v}}>{{else}}E{{end}};{{end}}`, v, nil), "<a>;<5>;E;")
 }
+
+func Test45RangeAssignDiscard(t *testing.T) {
+	v := jet.VarMap{}
+	v.Set("xs", []string{"a", "b"})
+	wantOut(t, one(`{{k := 9}}{{range k, _ = xs}}[{{k}}|{{.}}]{{end}}|{{k}}`, v, "ctx"), "[0|ctx][1|ctx]|1")
+	wantOut(t, one(`{{k := 9}}{{range _, k = xs}}[{{k}}|{{.}}]{{end}}|{{k}}`, v, "ctx"), "[a|ctx][b|ctx]|b")
+}
+
+type w46A struct{ X string }
+type w46C struct{ X string }
+type w46B struct{ w46C }
+type W46S struct {
+	*w46A
+	w46B
+}
+type W46A struct{ X string }
+type W46C struct{ X string }
+type W46B struct{ W46C }
+type W46T struct {
+	*W46A
+	W46B
+}
+
+func Test46PromotedThroughPointerVsDeeperValue(t *testing.T) {
+	s := W46T{W46A: &W46A{X: "shallow-through-pointer"}, W46B: W46B{W46C{X: "deeper-by-value"}}}
+	if s.X != "shallow-through-pointer" {
+		t.Fatal("Go disagrees")
+	}
+	wantOut(t, one(`{{ .X }}|{{ .["X"] }}`, nil, s), "shallow-through-pointer|shallow-through-pointer")
+	wantOut(t, one(`{{ .X }}`, nil, &s), "shallow-through-pointer")
+}
